@@ -310,7 +310,9 @@ def inline_extracted_helpers(crate):
     done = []
     for _round in range(4):
         fns = {p: b for p, b in crate.bodies.items() if b.get("dk") in ("Fn", "AssocFn") and "body" in b}
-        cands = [p for p, b in fns.items() if p not in base and not b.get("pub") and not b.get("impl_trait")]
+        cands = [p for p, b in fns.items() if not b.get("pub") and not b.get("impl_trait")
+                 and (p not in base or (b.get("inputs", []), b.get("output", "")) != (base[p]["inputs"], base[p]["output"]))]
+        # (new helpers, and private helpers whose signature is no longer the reviewed one: what moved across their boundary is seen in place)
         progress = False
         for h in cands:
             H = fns[h]
@@ -351,7 +353,32 @@ def inline_extracted_helpers(crate):
             for n in _all_nodes(H["body"]) + _all_nodes(params):
                 if (n.get("k") == "Bind" or (n.get("k") == "Path" and n.get("r") == "local")) and isinstance(n.get("id"), int):
                     n["id"] += off
-            stmts = [{"k": "SLet", "pat": p_, "init": a, "sp": call.get("sp", "")} for p_, a in zip(params, args)]
+            stmts = []
+            import copy as _copy
+            for p_, a in zip(params, args):
+                a2 = a
+                while isinstance(a2, dict) and a2.get("k") in ("DropTemps", "Use"):
+                    a2 = a2["e"]
+                if isinstance(a2, dict) and a2.get("k") == "AddrOf" and str(p_.get("ty", "")).startswith("&") and _is_plain_place(a2["e"]) and not p_.get("mut"):
+                    # `p: &mut T` bound to `&mut place`: the helper works on the place itself (no alias is introduced)
+                    pid = p_["id"]
+                    place = a2["e"]
+                    for n in _all_nodes(H["body"]):
+                        if n.get("k") == "Unary" and n.get("op") == "Deref":
+                            inner = n.get("e")
+                            while isinstance(inner, dict) and inner.get("k") in ("DropTemps", "Use"):
+                                inner = inner["e"]
+                            if isinstance(inner, dict) and inner.get("k") == "Path" and inner.get("r") == "local" and inner.get("id") == pid:
+                                n.clear()
+                                n.update(_copy.deepcopy(place))
+                    for n in _all_nodes(H["body"]):
+                        if n.get("k") == "Path" and n.get("r") == "local" and n.get("id") == pid:
+                            ty = n.get("ty", "")
+                            n.clear()
+                            n.update(_copy.deepcopy(place))
+                            n["adj"] = ty
+                    continue
+                stmts.append({"k": "SLet", "pat": p_, "init": a, "sp": call.get("sp", "")})
             hb = strip(H["body"])
             where = _statement_evaluating_first(F["body"], call)
             if where is not None and hb.get("k") == "Block" and "expr" in hb["b"]:
@@ -393,6 +420,20 @@ def inline_extracted_helpers(crate):
         if not progress:
             break
     return done
+
+
+def _is_plain_place(e):
+    """a local or a field path of one: evaluating it twice or later makes no difference"""
+    while isinstance(e, dict):
+        while e.get("k") in ("DropTemps", "Use"):
+            e = e["e"]
+        if e.get("k") == "Path":
+            return e.get("r") == "local"
+        if e.get("k") == "Field":
+            e = e["base"]
+        else:
+            return False
+    return False
 
 
 def _try_operand(e):
